@@ -36,7 +36,7 @@ ASSUMPTIONS = [
     "Dataset.copy() / inplace=False results are not required to keep appended-but-unused axes",
 ]
 MANDATORY = ["op:set-new", "op:set-replace", "op:reject", "op:del", "op:rename_ds", "op:rename_var", "op:dims", "op:set_axis", "op:axes_set",
-             "op:axes_set_int", "op:axes_set_renamed", "op:label", "op:append", "op:rename_keys", "op:rename_axes", "rename_axes:callable", "op:copy", "op:derive",
+             "op:axes_set_int", "op:axes_set_renamed", "op:label", "op:append", "op:rename_keys", "op:rename_axes", "rename_axes:callable", "set_axis:callable-mixed-result-types", "op:copy", "op:derive",
              "start:constructed", "reject-after-accept", "replace-changes-dims", "axis-change-with-2-users", "reject:new-dim-first", "dims:permute-existing", "reject:truncated-labels"]
 
 NAMES = ["x", "y", "z", "w"]
@@ -353,8 +353,16 @@ def run_case(case):
                     if mapper:
                         m.axes[d] = [new[0]] + list(m.axes[d][1:])
                 elif mode == 2:
-                    lib(lambda: ds.set_axis(lambda x: x + 100, axis=axis_arg), what=what + " set_axis(callable +100, axis=%r)" % (axis_arg,), sig=sig)
-                    m.axes[d] = [x + 100 for x in m.axes[d]]
+                    first = m.axes[d][0]
+                    mixed = [x if x == first else x + 0.5 for x in m.axes[d]]
+                    if (e // 5) % 3 == 1 and n >= 2 and len(set(mixed)) == n:
+                        # a mapper whose results are of different types (the first label stays what it is, the others become fractional)
+                        lib(lambda: ds.set_axis(lambda x: x if x == first else x + 0.5, axis=axis_arg), what=what + " set_axis(callable: first label kept, others + 0.5, axis=%r)" % (axis_arg,), sig=sig)
+                        m.axes[d] = mixed
+                        cl.add("set_axis:callable-mixed-result-types")
+                    else:
+                        lib(lambda: ds.set_axis(lambda x: x + 100, axis=axis_arg), what=what + " set_axis(callable +100, axis=%r)" % (axis_arg,), sig=sig)
+                        m.axes[d] = [x + 100 for x in m.axes[d]]
                 elif mode == 3:
                     fresh = [x for x in NAMES + FRESH + SPARE if x not in m.axes]
                     nn = fresh[c % len(fresh)]
